@@ -1,5 +1,6 @@
 import Wee.Model.Search
 import Wee.Proofs.TTLemmas
+import Wee.Proofs.BoundaryPoll
 /-!
 # Control-flow lemmas for the search model (C04, C17, C19)
 
@@ -987,10 +988,12 @@ theorem iterLoop_tt_inv (P : TT.Access → Prop) (ctx : Ctx) (root : State) (roo
   | zero => intro _ st h; exact h
   | succ n ih =>
     intro depth st h
-    rw [iterLoop]
+    rw [iterLoop_succ]
     split
     · exact h
-    · exact ih _ _ (iterStep_tt_inv P ctx root rootHash _ depth hW st h)
+    · split
+      · rw [boundaryPoll_tt]; exact h
+      · exact ih _ _ (iterStep_tt_inv P ctx root rootHash _ depth hW _ (by rw [boundaryPoll_tt]; exact h))
 
 /-- a property of the table that every worker run preserves is preserved by the whole search -/
 theorem iterate_tt_inv (P : TT.Access → Prop) (root : State) (rng0 : Rng.ChaCha8) (maxDepth : Option Nat)
@@ -1112,13 +1115,21 @@ theorem iterLoop_finished (ctx : Ctx) (root : State) (rootHash : UInt64) (worker
   | zero => rfl
   | succ n => rw [iterLoop, if_pos h]
 
-/-- an interrupted iteration is the last one -/
+/-- an interrupted iteration is the last one (the workers run on the state after the boundary read of the flag, which
+did not end the loop) -/
 theorem iterLoop_interrupted (ctx : Ctx) (root : State) (rootHash : UInt64) (workersOf : Nat → Nat)
-    (n depth : Nat) (st : IterSt) (hf : st.finished = false)
-    (hp : (workersOut ctx root (workersOf depth) depth st).panic = Option.none)
-    (hi : (workersOut ctx root (workersOf depth) depth st).interrupted = true) :
-    iterLoop ctx root rootHash workersOf (n+1) depth st = iterStep ctx root rootHash (workersOf depth) depth st := by
-  rw [iterLoop, if_neg (by rw [hf]; decide)]
-  exact iterLoop_finished _ _ _ _ _ _ _ (iterStep_interrupted ctx root rootHash _ depth st hp hi).1
+    (n depth : Nat) (st : IterSt) (hf : st.finished = false) (hb : (boundaryPoll ctx depth st).finished = false)
+    (hp : (workersOut ctx root (workersOf depth) depth (boundaryPoll ctx depth st)).panic = Option.none)
+    (hi : (workersOut ctx root (workersOf depth) depth (boundaryPoll ctx depth st)).interrupted = true) :
+    iterLoop ctx root rootHash workersOf (n+1) depth st =
+      iterStep ctx root rootHash (workersOf depth) depth (boundaryPoll ctx depth st) := by
+  rw [iterLoop_succ, if_neg (by rw [hf]; decide), if_neg (by rw [hb]; decide)]
+  exact iterLoop_finished _ _ _ _ _ _ _ (iterStep_interrupted ctx root rootHash _ depth _ hp hi).1
+
+/-- a boundary read that says "cancelled" ends the loop at once: no further worker is run -/
+theorem iterLoop_boundary_stop (ctx : Ctx) (root : State) (rootHash : UInt64) (workersOf : Nat → Nat)
+    (n depth : Nat) (st : IterSt) (hf : st.finished = false) (hb : (boundaryPoll ctx depth st).finished = true) :
+    iterLoop ctx root rootHash workersOf (n+1) depth st = boundaryPoll ctx depth st := by
+  rw [iterLoop_succ, if_neg (by rw [hf]; decide), if_pos hb]
 
 end Wee.SearchCtl
